@@ -1,6 +1,7 @@
 #![allow(dead_code)]
 mod absmap;
 mod gradual;
+mod scoregen;
 mod settings;
 mod util;
 
@@ -14,6 +15,7 @@ fn main() {
     let code = match args[1].as_str() {
         "gradual-replay" => gradual::main(rest),
         "gradual-record" => gradual::record_main(rest),
+        "scoregen-replay" => scoregen::main(rest),
         "concretize" => {
             // concretize <mode> <profile> <objs-json>
             let objs: Vec<absmap::AbsObj> = serde_json::from_str(&rest[2]).expect("objs json");
